@@ -452,6 +452,15 @@ pub fn gen_rule(d: &Data, r: &mut Rng) -> String {
                     // multi-rules whose sub-rules feed each other: the order of application matters
                     "a, e > e, i",
                     "a, e, a > e, i, e",
+                    // input sets whose alternatives can match the same segment: the first one
+                    // written wins, and with it the member of the output set
+                    "{n, [+nasal]} > {m, ŋ}",
+                    "{C, [+nasal]} > {x, ŋ}",
+                    "{a:[+stress], a} > {o, e}",
+                    "{a:[+long], a} > {o, e}",
+                    "{V, a, [+syll, +hi]} > {e, o, u}",
+                    "{[+cons], t, [-voice]} > {d, s, z}",
+                    "{[-syll], C} > {k, t} / _#",
                     "a, e, i, o, a > e, i, o, u, e",
                     "p, b > b, v",
                     "i, u > e, i / _#",
@@ -507,7 +516,9 @@ pub fn gen_rule(d: &Data, r: &mut Rng) -> String {
     }
 }
 
-pub const ALIAS_INTO: [&str; 10] = [
+pub const ALIAS_INTO: [&str; 11] = [
+    // `#` is an ordinary character on the romanised side of an alias
+    "s# > ʃ",
     "sh, á => ʃ, a:[+str]",
     "ssh, â => ʃ:[+long], a:[+str, +long]",
     "カ, タ, ナ > ka, ta, na",
@@ -519,7 +530,9 @@ pub const ALIAS_INTO: [&str; 10] = [
     "@{acute} > [+stress]",
     "ng > ŋ",
 ];
-pub const ALIAS_FROM: [&str; 12] = [
+pub const ALIAS_FROM: [&str; 14] = [
+    "ʃ => s#",
+    "k => #",
     "ʃ, a:[+str], $ > sh, á, *",
     "ʃ:[+long], a:[+str, +long], t:[+long], $ > ssh, â, tt, *",
     "ka, ta, na, $ > カ, タ, ナ, *",
